@@ -37,6 +37,9 @@ class HttpShard(ShardCMC):
         self.base_url = base_url.rstrip("/") + "/"
         super().__init__(shard_key, shard_spec)
         self.populate_minishard_dict()
+        # read-only shard: chunks are looked up in the minishards that were
+        # just read from the shard index
+        self.minishard_dict = self.ro_minishard_dict
         assert self.can_read_cmc
 
     def file_exists(self, filepath):
